@@ -14,6 +14,9 @@ WORKER = {"C02", "C03", "C04", "C06", "C09", "C10", "C11", "C13"}
 
 
 def dispatch(pid: str, tier: str, seed: int, replay=None) -> int:
+    if replay is not None and replay.get("check") == "worker" and pid == "C12":
+        from checks import worker_checks
+        return worker_checks.run("C12", tier, seed, replay=replay)
     if replay is not None and replay.get("check") == "worker-c14":
         from checks import worker_checks
         return worker_checks.run("C14", tier, seed, replay=replay)
